@@ -263,11 +263,13 @@ def replay(path):
     case = json.load(open(path))["case"]
     sysm = Lifecycle()
     ctx, model = sysm.fresh()
+    rc = 0
     for op in case["history"]:
         model, obs = sysm.apply(ctx, model, op)
         real = get_bindings()
         print(f"{op:14s} real={[classify(real[s]) for s in SLOTS]} model={model[0]} obs={obs}")
         for sig, d in sysm.check(ctx, model, op, obs):
             print("   MISMATCH", sig, d)
+            rc = 1
     sysm.cleanup(ctx)
-    return 0
+    return rc
